@@ -116,6 +116,10 @@ def cases(draw):
                 call[f_] = actual if f_ == key else {"$deref": dict(deref)}
             inl = [{"mov": [actual if o_ == key else {"$deref": dict(deref)} for o_ in body[0]["mov"]]}]
             in_file, files = split_definitions(draw, macros_)
+            if draw(st.booleans()):
+                # the other accepted call spelling: the labels indented one level deeper, i.e. as the mapping under the macro name
+                call = {"@ystore_": {k_: v_ for k_, v_ in call.items() if k_ != "@ystore_"}}
+                variant = "nested-key-nested-spelling"
             return {"handmade": "nested-pass-through", "variant": variant, "factored": [call], "inlined": inl, "macros_in_file": in_file, "macro_files": files}
         f = draw(st.sampled_from(["reg", "r", "macro-arg1", "x"]))
         fixed = draw(st.sampled_from(["rbx", "%r9", "0x20"]))
